@@ -151,8 +151,7 @@ def main(pid, argv):
                 if not clean and r["rc"] == 1 and "illegal" in r["out"]:
                     # a description that is not UTF-8 text cannot be embedded in Go source: reported as an error, nothing generated
                     kind = "gen-description-not-utf8"
-                if nf <= 4 or kind != "gen-crash":
-                    ck.fail(kind, V.hexs(t), bad, impl=r["out"][:600], extra=dict(text=t.decode("latin-1")[:600]))
+                ck.fail(kind, V.hexs(t), bad, impl=r["out"][:600], extra=dict(text=t.decode("latin-1")[:600]))
                 continue
             m = re.search(rb"^package (\S+)", r["src"], re.M)
             pkg = m.group(1).decode() if m else "x"
@@ -189,8 +188,7 @@ def main(pid, argv):
                         bad = "package name %r is not derived from the interface name %r" % (f, nm)
                 if bad:
                     nf += 1
-                    if nf <= 6:
-                        ck.fail("gen-output", V.hexs(t), bad, impl=s[:300].decode("latin-1"), extra=dict(text=t.decode("latin-1")[:600]))
+                    ck.fail("gen-output", V.hexs(t), bad, impl=s[:300].decode("latin-1"), extra=dict(text=t.decode("latin-1")[:600]))
             shutil.rmtree(sub, ignore_errors=True)
     finally:
         shutil.rmtree(d, ignore_errors=True)
